@@ -63,3 +63,5 @@ pub fn block_docs(depth: usize, tables: bool, pre: bool) -> Vec<Vec<N>> {
     out.extend(sub);
     out
 }
+
+pub mod sinklib;
